@@ -7,9 +7,16 @@ export VERIF_ROOT="$ROOT"
 HARNESS="$ROOT/harness"
 BUILD="$ROOT/.build"
 mkdir -p "$BUILD" "$ROOT/.work" "$ROOT/evidence" "$ROOT/replays"
+# The repository under test: /repo for the registered commands; a background
+# run started with `vp run --with-repo` gets a private snapshot in VP_RUN_REPO
+# (so that seeded-change trials in /repo cannot leak into it).
+export VERIF_REPO="${VP_RUN_REPO:-/repo}"
+if [ "$VERIF_REPO" != "/repo" ]; then
+  (cd "$HARNESS" && go mod edit -replace "github.com/openacid/slim=$VERIF_REPO")
+fi
 # go.sum is taken from the repository so that module verification never needs the network
-if [ ! -f "$HARNESS/go.sum" ] || ! cmp -s /repo/go.sum "$HARNESS/go.sum"; then
-  cp /repo/go.sum "$HARNESS/go.sum"
+if [ ! -f "$HARNESS/go.sum" ] || ! cmp -s "$VERIF_REPO/go.sum" "$HARNESS/go.sum"; then
+  cp "$VERIF_REPO/go.sum" "$HARNESS/go.sum"
 fi
 
 build_plain() {
